@@ -382,8 +382,9 @@ class Ref:
                     if missing:
                         raise Outcome(("typeerror", tuple(missing)))
                     self.ev(("cap", s["sid"], {a: env[a] for a in s.get("args", [])}))
+                    captured = self.tok("cap", s["sid"])  # numbered when the capture starts, like V.cap does
                     self.run_script(("cap", s["sid"]), env)
-                    old[snap_name(s)] = self.tok("cap", s["sid"])
+                    old[snap_name(s)] = captured
                 env2["OLD"] = old
             if not self.hold_marker_during_body:
                 self.S.discard(fkey)
